@@ -753,6 +753,11 @@ pub mod named {
     }
 }
 
+/// a custom hash method for plain `u8` fields that feeds exactly what the built-in one feeds
+pub fn hash_u8_plain<H: Hasher>(x: &u8, state: &mut H) {
+    state.write_u8(*x);
+}
+
 pub fn into_u8_alt<X: Payload>(x: X) -> u8 {
     ev(format!("m_into_u8_alt:{}", pid(&x)));
     (x.a() as u8).wrapping_add(100)
@@ -1083,6 +1088,26 @@ pub fn drive_hash<X: Hash>(
             line(case, "hash", i, side as isize, &format!("{r}\t{want}\t{flat}"), &e);
         }
     }
+    // values inside a slice are fed one after the other behind the length (`Hash::hash_slice` is not the impl's to change)
+    for i in 0..n {
+        let pair = [mk(i, 0), mk((i + 1) % n, 1)];
+        begin();
+        let got = rec_hash(&pair[..]);
+        let unit = rec_hash(&[(), ()][..]);
+        let a = rec_hash(&pair[0]);
+        let b = rec_hash(&pair[1]);
+        let _ = take();
+        let part = |s: String| if s == "~" { String::new() } else { s };
+        let want = format!("{}{}{}", part(unit), part(a), part(b));
+        line(case, "hslice", i, -1, &format!("{}\t{}\t{}", (part(got.clone()) == want) as u8, got, want), "-");
+    }
+}
+
+/// what a slice of two `x` feeds, next to what the length and the two values feed one after the other
+pub fn slice_hash_pair<X: Hash>(x: &X, y: &X, both: &[X]) -> (String, String) {
+    let part = |s: String| if s == "~" { String::new() } else { s };
+    let want = format!("{}{}{}", part(rec_hash(&[(), ()][..])), part(rec_hash(x)), part(rec_hash(y)));
+    (part(rec_hash(both)), want)
 }
 
 pub fn drive_debug<X: fmt::Debug>(
